@@ -80,7 +80,9 @@ func cmdVC(args []string) {
 
 func (e *Engine) runVerify(key string) {
 	full := key
-	if !strings.HasPrefix(key, modPath) {
+	if strings.HasPrefix(key, "poly.") {
+		full = modPath + "." + strings.TrimPrefix(key, "poly.")
+	} else if !strings.HasPrefix(key, modPath) {
 		full = modPath + "/" + key
 		if !strings.Contains(key, "/") && e.cs.Funcs[modPath+"."+key] != nil {
 			full = modPath + "." + key
